@@ -197,7 +197,25 @@ def job_measure_large(res, k, n):
         if not confirm(res, PID, HARNESS, 'h_measure', spec, 'f64', 'measure_large', ORACLES, f'measure:{nm}:large-n', why, timeout=120, suspect_is_inconclusive=not m.ub_found):
             if m.ub_found: confirm(res, PID, HARNESS, 'h_measure', spec, 'f64', 'measure_large', ORACLES, f'measure:{nm}:large-n', why, timeout=300, san=True)
 
-JOBFNS = {'awgn': job_awgn, 'seed': job_seed, 'repro': job_repro, 'randi': job_randi, 'scale': job_scale, 'measure_large': job_measure_large}
+
+def o_thd_aliased(spec, r, extra):
+    if r['status'] != 'ok': return True, f"thd: {r['status']} {r.get('stderr', '')[-200:]}"
+    return not abs(r['ret'] - extra['exp']) <= 1.0, f"thd(x, {spec[2][1]}, aliased) of a tone at {extra['f0']} cycles/sample with harmonics {extra['amps']} (folded at or above 2 fs): {r['ret']!r} dB, analytic {extra['exp']:.3f} dB"
+ORACLES['thd_aliased'] = o_thd_aliased
+def job_thd_aliased(res, f0, n, nharm):
+    """ground: noise-free tone whose higher harmonics fold once or twice around the sampling rate (k*f0 up to and above 2 cycles/sample); thd(x, nharm, aliased=true) through the interpreted code within 1 dB of the analytic value"""
+    mod, so = load(HARNESS); amps = [1.0, 0.1, 0.05, 0.08, 0.125, 0.06][:nharm]
+    x = [sum(a * math.sin(2 * math.pi * (k + 1) * f0 * i + 0.37 * k) for k, a in enumerate(amps)) for i in range(n)]
+    exp = 10 * math.log10(sum(a * a for a in amps[1:]) / amps[0] ** 2); spec = [('pf64', x), ('i32', n), ('i32', nharm)]; extra = {'exp': exp, 'f0': f0, 'amps': amps}
+    m = Machine(mod, max_steps=400_000_000)
+    try: r, outs, _ = sym_call(m, 'h_thd_aliased', spec, 'f64'); st = 'ret'
+    except (UB, Budget, Throw) as e: r = float('nan'); st = f'{type(e).__name__} {str(e)[:120]}'
+    res.absorb(m); ok = st == 'ret' and abs(r - exp) <= 1.0 and not m.ub_found
+    sol = z3.Solver(); sol.add(z3.Not(z3.BoolVal(bool(ok))))
+    if timed_check(sol, res) == z3.unsat: res.ob(True, 'ground', f'thd aliased f0={f0} n={n} nharm={nharm}: {r:.3f} dB (analytic {exp:.3f})')
+    else: confirm(res, PID, HARNESS, 'h_thd_aliased', spec, 'f64', 'thd_aliased', ORACLES, 'thd:aliased:folded-twice', f'thd aliased f0={f0} n={n} nharm={nharm}: {st} got {r!r}, analytic {exp:.3f}', extra=extra, timeout=120)
+
+JOBFNS = {'thd_aliased': job_thd_aliased, 'awgn': job_awgn, 'seed': job_seed, 'repro': job_repro, 'randi': job_randi, 'scale': job_scale, 'measure_large': job_measure_large}
 
 def selftest(st):
     calls = [('h_seed_gen', [('i32', s_), ('i32', k), ('i32', 6), ('i32', 0xfffffffd), ('i32', 9), ('pf64', [0.0] * 6)], 'i32') for s_ in (0, 1, 12345) for k in range(7)]
@@ -213,6 +231,7 @@ def main(tier, seed):
         for k in range(7): jobs.append((f'replay seed={s_} {GN[k]}', 'repro', dict(seed=s_, k=k, n=5, lo=-3, hi=9), 600))
     for (lo, hi) in [(1, 6), (5, 5), (-7, -2), (0, 1), (-3, 9), (0, 255)] + ([] if q else [(1, 1000), (-100, 100), (0, 2 ** 20)]): jobs.append((f'randi bounds {lo},{hi}', 'randi', dict(lo=lo, hi=hi), 900))
     for k in range(3): jobs.append((f'scale invariance {k}', 'scale', dict(k=k, n=32 if q else 64), 3000))
+    for (f0, nh) in ([(0.2103, 5), (0.41007, 5)] if q else [(0.2103, 5), (0.41007, 5), (0.45013, 5), (0.3391, 6), (0.12, 6)]): jobs.append((f'thd aliased f0={f0}', 'thd_aliased', dict(f0=f0, n=2048 if q else 4096, nharm=nh), 900))
     for (k, n) in ([(1, 65536)] if q else [(1, 65536), (2, 65536), (2, 100000), (1, 131072), (2, 262144)]): jobs.insert(0, (f'measure large k={k} n={n}', 'measure_large', dict(k=k, n=n), 3000))
     return run_property(PID, tier, HARNESS, jobs, JOBFNS,
         level_text='PARTIAL. awgn: with the input symbolic the added noise is g_i * sigma for ONE sigma and sigma^2 * (#components) == mean|x|^2 * 10^(-snr/10) (polynomial identity, real and complex). '
